@@ -229,12 +229,20 @@ where
         return Err(error::CIError::InvalidQuantile(quantile));
     }
 
-    ci_indices(confidence, sorted.len(), quantile).and_then(|indices| match indices.into() {
-        (Some(lo), Some(hi)) => {
-            Interval::new(sorted[lo].clone(), sorted[hi].clone()).map_err(|e| e.into())
+    // an element that is not comparable with itself (e.g., NaN) cannot bound an interval
+    let bound = |index: usize| -> CIResult<T> {
+        let element = &sorted[index];
+        if element.partial_cmp(element).is_none() {
+            Err(error::CIError::InvalidInputData)
+        } else {
+            Ok(element.clone())
         }
-        (Some(lo), None) => Ok(Interval::new_upper(sorted[lo].clone())),
-        (None, Some(hi)) => Ok(Interval::new_lower(sorted[hi].clone())),
+    };
+
+    ci_indices(confidence, sorted.len(), quantile).and_then(|indices| match indices.into() {
+        (Some(lo), Some(hi)) => Interval::new(bound(lo)?, bound(hi)?).map_err(|e| e.into()),
+        (Some(lo), None) => Ok(Interval::new_upper(bound(lo)?)),
+        (None, Some(hi)) => Ok(Interval::new_lower(bound(hi)?)),
         _ => Err(error::CIError::IntervalError(
             interval::IntervalError::EmptyInterval,
         )),
